@@ -365,6 +365,9 @@ var freshBroken string
 func fresh(enc string) (st *trie.SlimTrie) {
 	defer func() {
 		if r := recover(); r != nil {
+			if a, ok := r.(abortUnit); ok {
+				panic(a) // the simulator is unwinding the caller: says nothing about the library
+			}
 			if freshBroken == "" {
 				freshBroken = "NewSlimTrie(enc, nil, nil) panicked: " + clip(fmt.Sprint(r), 120)
 			}
